@@ -134,3 +134,22 @@ package server
 //@ func (*Scheduler).filterGPUsWithoutLoadingModels
 //@ func (*runnerRef).needsReload
 //@   assume-at entry : runner.numParallel >= 1      -- set to max(1, n) in load before the runner is published, never changed
+
+// C11 ("a request ... is served by a runner started with its options", and a compatible request
+// reuses it): whatever parallelism p the placement settles on, the fit is predicted and the runner
+// is started with the request's context scaled by THAT p (needsReload later divides the loaded
+// NumCtx by numParallel to compare it with a new request's). Added after seeded change C11-seed3.
+//@ func pickBestFullFitByLibrary
+//@   opt safe panic
+// (1) every assignment of the context stores origNumCtx * p for the p being tried;
+// (2) every fit prediction runs with the context stored for the SAME p it is asked about;
+// (3) the parallelism reported back is the p of the successful prediction.
+//@   assert-at store NumCtx : stored == wrapint(req.origNumCtx * p)
+//@   ghost-at store NumCtx : ghost_ctx := stored
+//@   ghost-at store NumCtx : ghost_p := p
+//@   assert-at call PredictServerFit : req.opts.NumCtx == ghost_ctx && arg5 == ghost_p && arg5 == p
+//@   ghost-at call PredictServerFit : ghost_pp := p
+//@   assert-at store numParallel : stored == ghost_pp
+//@   loop 3 invariant req.opts.NumCtx == ghost_ctx
+//@   loop 3 invariant ghost_p == p
+
